@@ -41,6 +41,15 @@ case $s in
  R-C08fix1) trial R-C08fix1 C08 cursor_empty_bucket_next_again;;
  R-C08fix2) trial R-C08fix2 C08 range_excluded_included;;
  R-C11fix) trial R-C11fix C11 tx_commit_fault_10_sync;;
- R-C07fix) trial R-C07fix C07 cursor_skips_emptied_leaf_node;;
+ R-C07fix) trial R-C07fix C07 cursor_scan_after_emptying_first_leaf;;
+ C01c) trial C01c C01 index_leaf_page_varlen_keys;;
+ C06c) trial C06c C06 bucket_put_over_bucket_refused;;
+ C08c) trial C08c C08 range_two_leaves_excluded_last_of_leaf;;
+ C10c) trial C10c C10 fl_allocate_step;;
+ C11c) trial C11c C11 tx_commit_fault_06_sync;;
+ C15c) trial C15c C15 db_meta_legacy_then_current_header,db_meta_current_then_legacy_header;;
+ C05b) trial C05b C05 bucket_merge_emptied_leaf_multi_page_root;;
+ R-C11fix2) trial R-C11fix2 C11 tx_commit_fault_08_short_past_header;;
+ R-C05fix1) trial R-C05fix1 C05 bucket_delete_nested_then_ancestor_frees_once;;
 esac
 done
